@@ -352,7 +352,7 @@ func TestVerif_C17(t *testing.T) {
 		c17Case{class: "random", size: 8*c17MiB - 1, seed: seed*1000 + 50}, c17Case{class: "random", size: 8 * c17MiB, seed: seed*1000 + 51}, c17Case{class: "random", size: 8*c17MiB + 1, seed: seed*1000 + 52},
 		c17Case{class: "const", size: 8*c17MiB + buf + 1, seed: 0}, c17Case{class: "period64", size: 9 * c17MiB, seed: seed*1000 + 53}, c17Case{class: "period4099", size: 5*c17MiB + 3, seed: seed*1000 + 54},
 		c17Case{class: "period512k", size: 6*c17MiB + 11, seed: seed*1000 + 55}, c17Case{class: "zero", size: 9*c17MiB + 5, seed: 0})
-	nrand := kit.Pick(6, 60)
+	nrand := kit.Pick(6, 140)
 	for i := 0; i < nrand; i++ {
 		cases = append(cases, c17Case{class: "random", size: 1 + rng.Intn(12*c17MiB), seed: seed*1000 + 100 + int64(i)})
 	}
@@ -482,6 +482,9 @@ func TestVerif_C17(t *testing.T) {
 		for oi, off := range offs {
 			if off < 0 {
 				off = 0
+			}
+			if off > len(old) {
+				off = len(old)
 			}
 			kind := []string{"insert", "delete", "overwrite"}[(oi+bi)%3]
 			d := []int{1, 100, 70000, 64, 600 * c17KiB}[(oi*7+bi)%5]
